@@ -75,7 +75,31 @@ func genCase(t *rapid.T) Case {
 		Flow: rapid.Bool().Draw(t, "flow"), Blocks: rapid.Bool().Draw(t, "blocks"), StrKeys: true, LineOnFlow: rapid.Bool().Draw(t, "lineonflow")}
 	docs := gen.StyledStream(t, o, 1)
 	d := docs[0]
+	// now and then a collection written on one line that holds entries and carries a line comment (rare in the
+	// generated trees): the target of a key creation / an element created by its index
+	var planted *gen.YN
+	if d.Root.K == gen.YMap && !d.Root.Flow && len(d.Root.Keys) > 0 && rapid.IntRange(0, 7).Draw(t, "plant") == 0 {
+		planted = &gen.YN{K: gen.YMap, Flow: true, Line: "planted note",
+			Keys: []*gen.YN{{K: gen.YScalar, T: "str", S: "x"}, {K: gen.YScalar, T: "str", S: "y"}}, Vals: []*gen.YN{{K: gen.YScalar, T: "int", S: "1"}, {K: gen.YScalar, T: "str", S: "two"}}}
+		if rapid.Bool().Draw(t, "plantseq") {
+			planted = &gen.YN{K: gen.YSeq, Flow: true, Line: "planted note", Elem: []*gen.YN{{K: gen.YScalar, T: "int", S: "1"}, {K: gen.YScalar, T: "str", S: "two"}}}
+		}
+		pos := rapid.IntRange(0, len(d.Root.Keys)).Draw(t, "plantpos")
+		key := &gen.YN{K: gen.YScalar, T: "str", S: "zz_planted"}
+		d.Root.Keys = append(d.Root.Keys[:pos], append([]*gen.YN{key}, d.Root.Keys[pos:]...)...)
+		d.Root.Vals = append(d.Root.Vals[:pos], append([]*gen.YN{planted}, d.Root.Vals[pos:]...)...)
+	}
 	c := Case{Doc: d, Text: gen.Text(docs)}
+	if planted != nil && rapid.IntRange(0, 2).Draw(t, "useplanted") > 0 {
+		c.Path = []string{"zz_planted"}
+		val := rapid.SampledFrom([]string{`"new"`, `42`}).Draw(t, "plval")
+		if planted.K == gen.YSeq {
+			c.Kind, c.Update = "append", rapid.SampledFrom([]string{`.["zz_planted"][2] = ` + val, `.["zz_planted"] += [` + val + `]`, `.zz_planted.2 = ` + val}).Draw(t, "plupd")
+		} else {
+			c.Kind, c.Update = "create_key", rapid.SampledFrom([]string{`.["zz_planted"].["zz_new"] = ` + val, `.zz_planted.zz_new = ` + val, `.["zz_planted"] += {"zz_new": ` + val + `}`}).Draw(t, "plupd")
+		}
+		return c
+	}
 	var nodes []tnode
 	collect(d.Root, nil, &nodes)
 	// candidates: everything but the root and alias nodes
@@ -102,12 +126,21 @@ func genCase(t *rapid.T) Case {
 			oneLine = append(oneLine, y)
 		}
 	}
+	var oneLineFull []tnode
+	for _, y := range oneLine {
+		if y.n.Len() > 0 {
+			oneLineFull = append(oneLineFull, y)
+		}
+	}
 	if len(oneLine) > 0 && rapid.Bool().Draw(t, "onelinetarget") {
 		x = rapid.SampledFrom(oneLine).Draw(t, "oltarget")
+		if len(oneLineFull) > 0 && rapid.IntRange(0, 2).Draw(t, "olfull") > 0 {
+			x = rapid.SampledFrom(oneLineFull).Draw(t, "olfulltarget") // one that already holds entries
+		}
 		c.Path = x.path
 		p := pathExpr(x.path)
 		val := rapid.SampledFrom([]string{`"new"`, `42`, `true`}).Draw(t, "olval")
-		switch rapid.IntRange(0, 5).Draw(t, "olkind") {
+		switch rapid.SampledFrom([]int{0, 1, 2, 3, 4, 4, 4, 5}).Draw(t, "olkind") {
 		case 0:
 			c.Kind, c.Update = "replace_tree", p+` = {"m": 1, "l": [1, 2]}`
 		case 1:
@@ -123,6 +156,9 @@ func genCase(t *rapid.T) Case {
 		case 4:
 			if x.n.K == gen.YSeq {
 				c.Kind, c.Update = "append", p+" |= . + ["+val+"]"
+				if rapid.Bool().Draw(t, "byindex") {
+					c.Update = fmt.Sprintf("%s[%d] = %s", p, x.n.Len(), val) // the element just past the end, created by its index
+				}
 			} else {
 				c.Kind, c.Update = "create_key", p+`.["zz_new"] = `+val
 			}
@@ -246,6 +282,8 @@ func genCase(t *rapid.T) Case {
 	}
 	return c
 }
+
+var oneLineEntries int
 
 type row struct {
 	KHead, KLine, KFoot string
@@ -715,6 +753,26 @@ func check(c Case) hx.Verdict {
 			continue
 		}
 		if (c.Kind == "append" || c.Kind == "create_key") && p == tp {
+			// the container that receives the new entry: an empty one is re-styled by design ("nice yaml formatting");
+			// one that already holds entries keeps its style, anchor and tag (it only gains an entry)
+			if tn := nodeAt(c.Doc.Root, c.Path); tn != nil && tn.Len() > 0 && !strings.Contains(c.Update, "|=") {
+				if ur, ok := ut[p]; ok && (ur.Style != r.Style || ur.Anchor != r.Anchor || ur.Tag != r.Tag || ur.Kind != r.Kind) {
+					return hx.Bad("", "the container that receives the new entry changed its presentation: %+v -> %+v: u=%s\ninput:\n%s\n`yq .`:\n%s\n`yq u`:\n%s", r, ur, c.Update, c.Text, base.Out, upd.Out)
+				}
+				// written on one line it stays on one line, and its line comment stays a line comment
+				if tn.Flow && tn.Line != "" {
+					oneLineEntries++
+					still := false
+					for _, l := range strings.Split(upd.Out, "\n") {
+						if i := strings.Index(l, " # "+tn.Line); i > 0 && strings.TrimSpace(l[:i]) != "" {
+							still = true
+						}
+					}
+					if !still {
+						return hx.Bad("", "the line comment %q of the one-line collection that receives the new entry is no longer a line comment: u=%s\ninput:\n%s\n`yq .`:\n%s\n`yq u`:\n%s", tn.Line, c.Update, c.Text, base.Out, upd.Out)
+					}
+				}
+			}
 			continue
 		}
 		if excl[p] {
@@ -761,7 +819,12 @@ func check(c Case) hx.Verdict {
 	if strings.HasPrefix(base.Out, "---") != strings.HasPrefix(upd.Out, "---") && len(c.Path) > 0 {
 		return hx.Bad("", "document separator changed: u=%s\n`yq .`:\n%s\n`yq u`:\n%s", c.Update, base.Out, upd.Out)
 	}
-	return hx.OK(decorated >= 3 && base.Out != upd.Out, c.Text+"\x00"+c.Update, "kind:"+c.Kind)
+	labels := []string{"kind:" + c.Kind}
+	if oneLineEntries > 0 {
+		oneLineEntries = 0
+		labels = append(labels, "entry_into_one_line_collection_with_line_comment")
+	}
+	return hx.OK(decorated >= 3 && base.Out != upd.Out, c.Text+"\x00"+c.Update, labels...)
 }
 
 func TestProp(t *testing.T) {
